@@ -20,8 +20,8 @@ META = {
 }
 
 H = os.path.join(V.VERIF, "harness", "C14")
-TYPES = {"i": "int", "u": "unsigned", "l": "long", "s": "short", "z": "std::size_t"}
-BITS = {"i": (32, True), "u": (32, False), "l": (64, True), "s": (16, True), "z": (64, False)}
+TYPES = {"i": "int", "u": "unsigned", "l": "long", "s": "short", "z": "std::size_t", "c": "signed char"}
+BITS = {"i": (32, True), "u": (32, False), "l": (64, True), "s": (16, True), "z": (64, False), "c": (8, True)}
 VALS = [0, 1, 2, 3, 5]
 LAYC = {"L": "DS::layout_left", "R": "DS::layout_right", "S": "DS::layout_stride"}
 MDA_KINDS = ["exts", "dyn", "ext", "map", "extv", "mapv", "extc", "mapc", "extcm", "mapcm", "exta", "mapa", "extva", "mapva", "extca", "mapca"]
@@ -46,7 +46,7 @@ def insts(thorough):
     out, ty = [], "iuls"
     core = [(), ("d",), ("d", "d"), (3, "d"), ("d", "d", "d"), (2, "d", 3), (2, 3), ("d", "d", "d", "d")]
     for n, p in enumerate(patterns(thorough)):
-        ts = ty + "z" if p in core else ("iulsz"[n % 5] if thorough else ty[n % 4])    # z = std::size_t
+        ts = ty + "zc" if p in core else ("iulsz"[n % 5] if thorough else ty[n % 4])    # z = std::size_t, c = signed char (8 bit)
         for t in ts:
             out.append((t, p))
     return out
@@ -137,7 +137,7 @@ def set_extra(cases):
                 a, b = inst.split(">")
                 (ts_, ps), (td, pd) = parse_inst(a), parse_inst(b)
                 ex["xcv"].append((ts_, ps, td, pd, None))
-            elif op in ("acc", "elt"):
+            elif op in ("acc", "elt", "elt2", "rol"):
                 ex["acc"].append(parse_inst(inst))
             elif op.startswith("p") and op[1:2].isdigit():
                 if op != "p6crit":
@@ -206,7 +206,7 @@ def gen_sources(ctx, nparts, thorough, tag):
                 for x in p:
                     N *= x
                 for l in "LR":
-                    L.append('    {"mdasa/%s/%s", &run_mda_stdarray<%s, %s, %d>},' % (l, nm, LAYC[l], X, N))
+                    L.append('    {"mdasa/%s/%s", &run_mda_stdarray<%s, %s, %d>}, {"mdasb/%s/%s", &run_mda_stdarray_big<%s, %s, %d>},' % (l, nm, LAYC[l], X, N, l, nm, LAYC[l], X, N))
         L += ["  };", "  return t;", "}", "}"]
         src = os.path.join(gd, "tu_%d.cc" % k)
         open(src, "w").write("\n".join(L[:2] + pre + L[2:]) + "\n")
@@ -236,8 +236,10 @@ def gen_sources(ctx, nparts, thorough, tag):
         for n, (t, p) in enumerate(AI):
             L.append("using AX%d = %s;" % (n, ctype(t, p)))
             ent.append('    {"acc/%s/%s", &run_acc<%s, AX%d>},' % (l, iname(t, p), LAYC[l], n))
+            ent.append('    {"rol/%s/%s", &run_rol<%s, AX%d>},' % (l, iname(t, p), LAYC[l], n))
             if l != "S" and (n % 2 == 0 or n >= len(acc_insts())):
                 ent.append('    {"elt/%s/%s", &run_elt<%s, AX%d>},' % (l, iname(t, p), LAYC[l], n))
+                ent.append('    {"elt2/%s/%s", &run_elt2<%s, AX%d>},' % (l, iname(t, p), LAYC[l], n))
         L += ["const std::vector<Entry>& tab_%d() {" % k, "  static const std::vector<Entry> t = {"] + ent + ["  };", "  return t;", "}", "}"]
         src = os.path.join(gd, "tu_%d.cc" % k)
         open(src, "w").write("\n".join(L) + "\n")
@@ -253,7 +255,7 @@ def gen_sources(ctx, nparts, thorough, tag):
     probes = {}
     PI = all_probe()
     for pn, ops in ((1, [("p1cvt", "run_p1cvt", "LR"), ("p1fs", "run_p1fs", "LR")]), (2, [("p2conv", "run_p2conv", "LRS")]),
-                    (3, [("p3alloc", "run_p3alloc", "LR")]), (4, [("p4eq", "run_p4eq", "LR")]), (5, [("p5r0", "run_p5r0", "LR")])):
+                    (3, [("p3alloc", "run_p3alloc", "LR")]), (4, [("p4eq", "run_p4eq", "LR")]), (5, [("p5r0", "run_p5r0", "LR")]), (7, [("p7tm", "run_p7tm", "LR")])):
         L = ['#include "c14_probes.hh"', "namespace c14 {"]
         for n, (t, p) in enumerate(PI):
             L.append("using P%d = %s;" % (n, ctype(t, p)))
@@ -395,7 +397,7 @@ def gen(ctx, I, PI):
             must = [c for c in combos if len(set(c)) == 1 and c[0] in (0, 1)]
             combos = must + rng.sample(combos, limit - len(must))
         Es = [fill(p, c) for c in combos]
-        Es = [E for E in Es if prod(E) <= 400]
+        Es = [E for E in Es if prod(E) <= 400 and fits(t, prod(E)) and fits(t, prod([max(x, 1) for x in E]))]
         for n, E in enumerate(Es):
             cases.append("ext %s E=%s" % (nm, lst(E)))
             kinds = ["left", "right", "perm", "pad"] if (len(E) > 1) else ["left", "pad"]
@@ -405,6 +407,8 @@ def gen(ctx, I, PI):
                 S = unique_strides(rng, E, kd)
                 if not fits(t, rss_stride(E, S)) or rss_stride(E, S) > 3000 or any(not fits(t, s) for s in S):
                     S = unique_strides(rng, E, "perm")
+                if not fits(t, rss_stride(E, S)) or any(not fits(t, s) for s in S):
+                    continue        # (narrow index types: no representable stride vector of this kind)
                 cases.append("map %s E=%s S=%s" % (nm, lst(E), lst(S)))
                 base = rng.choice([0, 0, 1, 4])
                 for l in ("LRS" if kd in ("perm", "pad") else rng.choice(["L", "R"])):
@@ -418,7 +422,7 @@ def gen(ctx, I, PI):
                 S2 = unique_strides(rng, E2, "pad")
                 if S2 == S1 and E2 == E and len(E) > 0:
                     S2 = [x * 3 for x in unique_strides(rng, E2, "perm")]
-                if all(fits(t, v) for v in (rss_stride(E, S1), rss_stride(E2, S2))) and max(rss_stride(E, S1), rss_stride(E2, S2)) < 3000:
+                if all(fits(t, v) for v in [rss_stride(E, S1), rss_stride(E2, S2)] + S1 + S2) and max(rss_stride(E, S1), rss_stride(E2, S2)) < 3000:
                     for f in ("swap", "copy", "move"):
                         cases.append("swp %s f=%s E=%s S=%s E2=%s S2=%s base=%d base2=%d" % (nm, f, lst(E), lst(S1), lst(E2), lst(S2), rng.choice([0, 1, 5]), rng.choice([0, 2, 7])))
             ks = MDA_KINDS if n == 0 else rng.sample(MDA_KINDS, 2 if quick else 5)
@@ -432,6 +436,7 @@ def gen(ctx, I, PI):
             if "d" not in p and n == 0:
                 for l in "LR":
                     cases.append("mdasa %s lay=%s E=%s" % (nm, l, lst(E)))
+                    cases.append("mdasb %s lay=%s E=%s" % (nm, l, lst(E)))
     # custom accessor policies (interleaved raw-pointer accessor with a run-time shift; non-pointer data handle), other
     # containers (std::deque) and element types (std::string)
     for t, p in acc_insts():
@@ -455,9 +460,15 @@ def gen(ctx, I, PI):
                             cases.append("acc %s lay=S a=%s E=%s S=%s S2=%s base=%d base2=%d k1=%d k2=%d arr=1" % (nm, a, lst(E), lst(Sc), lst(Sc), b2, b1, k2, k1))
                     else:
                         cases.append("acc %s lay=%s a=%s E=%s S=- S2=- base=%d base2=%d k1=%d k2=%d arr=1" % (nm, l, a, lst(E), b1, b2, k1, k2))
+            for l in "LRS":      # coverage audit: roles of layouts / index types / allocators
+                Sx = unique_strides(rng, E, "perm" if n % 2 else "pad") if l == "S" else []
+                if l == "S" and (max(Sx + [0]) > 30000 or rss_stride(E, Sx) > 3000):
+                    Sx = unique_strides(rng, E, "perm")
+                cases.append("rol %s lay=%s E=%s S=%s base=%d" % (nm, l, lst(E), lst(Sx), rng.choice([0, 2])))
             if acc_insts().index((t, p)) % 2 == 0:
                 for l in "LR":
                     cases.append("elt %s lay=%s E=%s" % (nm, l, lst(E)))
+                    cases.append("elt2 %s lay=%s E=%s" % (nm, l, lst(E)))
     # extents whose product is just below the limit of index_type (short): every tuple still enumerated (mapping level only:
     # the list-based store of the model is quadratic in the number of writes)
     big = [("s:d", [32767]), ("s:d,d", [181, 181]), ("s:d,d", [1, 32767]), ("s:d,d,d", [127, 129, 2])]
@@ -501,6 +512,7 @@ def gen(ctx, I, PI):
                 cases.append("p1cvt %s lay=%s E=%s S=%s" % (nm, l, lst(E), lst(Sc)))
                 cases.append("p1fs %s lay=%s E=%s S=%s base=%d" % (nm, l, lst(E), lst(Sc), base))
                 cases.append("p3alloc %s lay=%s E=%s S=- base=%d" % (nm, l, lst(E), base))
+                cases.append("p7tm %s lay=%s E=%s" % (nm, l, lst(E)))
                 if p != ():
                     cases.append("p4eq %s lay=%s E=%s S=%s" % (nm, l, lst(E), lst(Sc)))
                     Sp = unique_strides(rng, E, "pad")
@@ -521,6 +533,8 @@ def gen(ctx, I, PI):
             if x in ("a5", "c4"):
                 n = ln
             hd = "span - x=%s n=%d o=%d len=%d" % (x, n, o, ln)
+            if x in ("d", "dv", "di") and ln in (0, 1, 3, 4, 7):
+                cases.append("%s f=tost" % hd)
             for f in ("desc", "iter", "conv", "asg"):
                 cases.append("%s f=%s" % (hd, f))
             for c in range(ln + 1):
@@ -781,6 +795,64 @@ def oracle(case, impl, model):
                 if il(rest) != P:
                     return "convert", "const-converted view accesses %s, original %s" % (rest, P)
         return None
+    if op == "rol":
+        lay = cd["lay"]
+        st = strides_left(E) if lay == "L" else strides_right(E) if lay == "R" else S
+        P = [base + dot(i, st) for i in T]
+        secs = [x.strip() for x in impl.split(" | ")]
+        d0 = kvs(secs[0])
+        if il(d0.get("p")) != P:
+            return "element", "view accesses %s, mapping designates %s" % (d0.get("p"), P)
+        if d0.get("it") != "1":
+            return "index-type", "operator[]/operator() with indices of another integral type (long long, size_t, short, unsigned char; array, span, variadic) reach other elements than with index_type"
+        for sct in secs[1:]:
+            tag, _, rest = sct.partition(" ")
+            rest = rest.strip()
+            if rest == "-":
+                continue
+            if tag == "xs":
+                a, b, dsc = [x.strip() for x in rest.split(" ; ")]
+                if il(a) != P or il(b) != P:
+                    return "cross-layout", "mdspan converted to layout_stride / back accesses %s ; %s, source %s" % (a, b, P)
+                r = check_layout("xs", kvs(dsc), E, st)
+                if r:
+                    return "cross-layout", r
+            elif tag == "xo":
+                a, b = [x.strip() for x in rest.split(" ; ")]
+                d = kvs(b)
+                if il(a) != P or il(d.get("v")) != [1000 + x for x in P] or il(d.get("ext")) != E:
+                    return "cross-layout", "rank<=1 left<->right conversion of mdspan/mdarray: %s" % rest[:150]
+            elif tag == "st":
+                fl, _, dsc = rest.partition(" ")
+                if fl != "1":
+                    return "stride-type", "layout_stride::mapping(extents, strides) with strides of another integral type (array/span of long long, short, unsigned char) differs from the index_type form"
+                r = check_layout("st", kvs(dsc), E, S)
+                if r:
+                    return "stride-type", r
+            elif tag == "al":
+                fl, _, r2 = rest.partition(" ")
+                parts = [kvs(x) for x in r2.split(" ; ")]
+                n = prod(E)
+                want = [[5] * len(T), [1000 + x for x in P], [1000 + dot(i, st) for i in T], [6] * len(T)]
+                if fl != "1":
+                    return "allocator", "a constructor taking an allocator loses the allocator / the container contents"
+                for d, w in zip(parts, want):
+                    if il(d.get("v")) != w or d.get("cs") != str(n) or il(d.get("ext")) != E:
+                        return "allocator", "mdarray built with an allocator holds %s (container size %s), expected %s" % (d.get("v"), d.get("cs"), w)
+            elif tag == "tm":
+                if rest != "1":
+                    return "to-mdspan", "to_mdspan(accessor) / conversion operator to mdspan do not alias the array"
+        return None
+    if op == "elt2":
+        lay = cd["lay"]
+        st = strides_left(E) if lay == "L" else strides_right(E)
+        want = [1 + dot(i, st) for i in T]
+        for sct in impl.split(" | "):
+            tag, _, rest = sct.strip().partition(" ")
+            d = kvs(rest)
+            if d.get("cs") != str(prod(E)) or d.get("same") != "1" or il(d.get("p")) != want:
+                return tag, "element type %s: %s, expected positions %s" % (tag, rest[:120], want)
+        return None
     if op == "elt":
         lay = cd["lay"]
         st = strides_left(E) if lay == "L" else strides_right(E)
@@ -841,10 +913,10 @@ def oracle(case, impl, model):
             if tag in ("L", "R", "S"):
                 eq0 = (E == E2) and (lay != "S" or rk == 0 or S == S2)
                 exp = {"eq0": "1" if eq0 else "0", "ne": "1", "asg": "1", "dz": "1", "uni": "1", "str": "1", "au": "1", "ae": "0" if lay == "S" else "1",
-                       "as": "1", "rank": str(rk), "rd": str(rd), "sr": "1"}
+                       "as": "1", "rank": str(rk), "rd": str(rd), "sr": "1", "self": "1"}
             else:
                 eq0 = (E == E2) and prod(E) == 0
-                exp = {"eq0": "1" if eq0 else "0", "eqc": "1", "ex": "1", "ptr": "1", "uni": "1", "exh": "1", "str": "1", "au": "1", "ae": "1", "as": "1",
+                exp = {"self": "1", "eq0": "1" if eq0 else "0", "eqc": "1", "ex": "1", "ptr": "1", "uni": "1", "exh": "1", "str": "1", "au": "1", "ae": "1", "as": "1",
                        "rank": str(rk), "rd": str(rd)}
             for k, v in exp.items():
                 if dq.get(k) != v:
@@ -875,6 +947,19 @@ def oracle(case, impl, model):
             elif tag.startswith("ar"):
                 if il(d.get("v")) != [7000 + q for q in range(len(T))] or d.get("cs") != str(prod(E)):
                     return tag, "%s: converted array elements %s (container size %s)" % (tag, d.get("v"), d.get("cs"))
+        return None
+    if op in ("p7tm", "mdasb"):
+        lay = cd["lay"]
+        st = strides_left(E) if lay == "L" else strides_right(E)
+        want = [dot(i, st) for i in T]
+        d = kvs(impl)
+        exp = [5 if op == "p7tm" else 0] * prod(E)
+        for q, x in enumerate(want):
+            exp[x] = 7000 + q
+        if il(d.get("p")) != want or il(d.get("w")) != exp:
+            return "element", "%s: positions %s container %s, expected %s / %s" % (op, d.get("p"), d.get("w"), want, exp)
+        if op == "mdasb" and (d.get("cs") != str(prod(E) + 2) or d.get("size") != str(prod(E)) or il(d.get("v")) != [77] * len(T)):
+            return "size", "std::array container larger than required: %s" % impl[:120]
         return None
     if op == "p6crit":
         return None if impl == model else ("crit", "span::crbegin()/crend(): %s, reversed sequence is %s" % (impl, model))
@@ -1045,7 +1130,7 @@ def run(ctx):
     try:
         impl_san, _ = san_future.result()
         ctx.log("sanitizer variant built")
-        sub = [i for i, c in enumerate(cases) if c.split()[0] in ("mds", "mda", "mdasa", "mdafs", "span", "swp", "acc", "elt", "p1fs", "p2conv", "p3alloc")]
+        sub = [i for i, c in enumerate(cases) if c.split()[0] in ("mds", "mda", "mdasa", "mdafs", "span", "swp", "acc", "elt", "elt2", "rol", "p1fs", "p2conv", "p3alloc")]
         if ctx.quick:
             sub = sub[::3]
         so = V.run_cases(ctx, [impl_san], [cases[i] for i in sub], tag="san", timeout=300 if ctx.quick else 1200,
